@@ -60,6 +60,13 @@ theorem fact_startCommandCalls :
 /-- a node already in the queue or marked for deletion is never a candidate again -/
 theorem fact_newCandidateCalls : newCandidateCalls = ["HasAny", "ValidateNodeDisruptable", "ValidatePodsDisruptable"] := by decide
 
+/-- a finished command is un-marked only if it FAILED: `Queue.Reconcile` completes the command after
+    `waitOrTerminate`, and `CompleteCommand` calls `UnmarkForDeletion` under `!cmd.Succeeded`.  A succeeded command has
+    deleted its candidates' NodeClaims in the API, but the cluster state learns of the deletionTimestamp only when the
+    informer delivers it; until then the mark is what keeps the node in the "being deleted" count (§9). -/
+theorem fact_completeGuard : completeUnmarkGuard = "!cmd.Succeeded" ∧ completeUnmarksSucceeded = false := by decide
+theorem fact_queueReconcileCalls : queueReconcileCalls = ["waitOrTerminate", "CompleteCommand"] := by decide
+
 /-! ## 1. The activity window -/
 
 /-- **C05_active_window** — for a scheduled budget, `IsActive` is true exactly when some activation `h` of the
@@ -459,6 +466,68 @@ theorem C05_inflight_accumulate (cron : Cron) (hitOf : HitOf) (hc : CronAgrees c
           exact C05_inflight_step cron hitOf hc w e hw hnd hgroups hlater hcands p hp (Or.inr hk)
         · exact Or.inr ⟨a, ha, hk⟩
 
+/-! ## 9. Commands that completed, and an informer that lags behind the API server
+
+"… plus the pool's nodes that are already … being deleted … across consecutive reconcile rounds with commands still
+in flight."  A node is *being deleted* for an observer as soon as a command holds it (`inFlight`) and for as long as
+its NodeClaim carries a deletionTimestamp in the API server (`api`).  The budget code reads the cluster state
+(`mark || seen`), which learns of the deletionTimestamp only when the informer delivers it (`sync`), arbitrarily
+later.  The theorems below show that, along every history of the queue's life cycle
+(`start` / `finish succeeded` / `finish failed` / `sync` / new nodes, in any order, with any lag), whatever the observer
+calls "being deleted" is counted by the cluster state — so a bound established on the cluster state's view holds on
+the observer's view — and that this rests on `CompleteCommand` keeping the mark of succeeded commands. -/
+
+/-- **C05_lag_invariant** — the life-cycle invariant (`inFlight → mark`, `api → mark ∨ seen`, `inFlight → ¬api`) is
+    preserved by every step of the queue as it is in the source (guard regenerated, pinned by `fact_completeGuard`),
+    for every history in which commands are started on nodes that are not marked / in flight and only queued
+    commands finish.  No assumption on when — or whether — the informer syncs. -/
+theorem C05_lag_invariant (steps : List QStep) (ts : List Track) (hinv : ∀ t ∈ ts, t.inv = true)
+    (hok : qrunOK completeUnmarksSucceeded ts steps = true) :
+    ∀ t ∈ steps.foldl qstepCode ts, t.inv = true := by
+  have hf : completeUnmarksSucceeded = false := fact_completeGuard.2
+  unfold qstepCode
+  rw [hf] at hok ⊢
+  exact qrun_inv steps ts hinv hok
+
+/-- **C05_lag_counted** — in every reachable state, a node that a command holds or whose NodeClaim is deleting in the
+    API server is `MarkedForDeletion()` in the cluster state, however stale the cluster state's NodeClaim copy is. -/
+theorem C05_lag_counted (steps : List QStep) (ts : List Track) (hinv : ∀ t ∈ ts, t.inv = true)
+    (hok : qrunOK completeUnmarksSucceeded ts steps = true) :
+    ∀ t ∈ steps.foldl qstepCode ts, t.beingDeleted = true → t.stateMarked = true :=
+  fun t ht hb => inv_counted t (C05_lag_invariant steps ts hinv hok t ht) hb
+
+/-- **C05_lag_guard_needed** — the guard is necessary: if `CompleteCommand` un-marked succeeded commands as well, then
+    after `start; finish succeeded` (no sync yet) the node is deleting in the API server and counted by nobody. -/
+theorem C05_lag_guard_needed :
+    (qrun true [Track.fresh "a"] [.start ["a"], .finish ["a"] true]).map (fun t => (t.beingDeleted, t.stateMarked)) = [(true, false)] ∧
+    (qrun false [Track.fresh "a"] [.start ["a"], .finish ["a"] true]).map (fun t => (t.beingDeleted, t.stateMarked)) = [(true, true)] ∧
+    (qrun false [Track.fresh "a"] [.start ["a"], .finish ["a"] false]).map (fun t => (t.beingDeleted, t.stateMarked)) = [(false, false)] := by
+  decide
+
+/-- **C05_lag_bound** — marks the observer does not (yet/any more) see can only tighten the bound: if the property's
+    inequality holds on a node list, it holds on the same list with fewer nodes marked. -/
+theorem C05_lag_bound (hitOf : HitOf) (p : Pool) (nodes : List Node) (extra : Node → Bool) (now : Int) (reason : String)
+    (k : Nat) (h : poolBoundOK hitOf p (raiseMarks extra nodes) now reason k = true) :
+    poolBoundOK hitOf p nodes now reason k = true :=
+  poolBound_of_raised hitOf p nodes extra now reason k h
+
+/-- **C05_round_observed** — one round of any method on a cluster state that lags behind the API server: if the
+    world the budget was last computed on is `base` as the cluster state sees it (marks from `mark ∨ seen` of a
+    reachable life-cycle state), then what reaches the queue satisfies the property's bound on `base` as the
+    *observer* sees it (marks from `inFlight ∨ api`), for every pool. -/
+theorem C05_round_observed (cron : Cron) (hitOf : HitOf) (hc : CronAgrees cron hitOf) (w : World) (e : RoundEnv)
+    (hw : GoodPools w.pools) (he : StepGood (.round e))
+    (steps : List QStep) (ts0 : List Track) (hinv : ∀ t ∈ ts0, t.inv = true)
+    (hok : qrunOK completeUnmarksSucceeded ts0 steps = true) (base : List Node)
+    (hview : (runRound cron w e).2.nodes = base.map (Node.withTrack Track.stateMarked (steps.foldl qstepCode ts0))) :
+    ∀ p ∈ (runRound cron w e).2.pools,
+      poolBoundOK hitOf p (base.map (Node.withTrack Track.beingDeleted (steps.foldl qstepCode ts0)))
+        (runRound cron w e).2.now e.method.reason (countPool p.name (runRound cron w e).1) = true := by
+  intro p hp
+  have h := C05_round cron hitOf hc w e hw he p hp
+  rw [hview, withTrack_view _ (C05_lag_invariant steps ts0 hinv hok) base] at h
+  exact C05_lag_bound hitOf p _ _ _ _ _ h
+
 /-! ## Non-vacuity -/
 
 /-- a cron parameter for "every hour on the hour" (`0 * * * *`), written directly -/
@@ -569,5 +638,16 @@ example : Quiescent demoCron demoIn demoHistory ∧ roundsReason "Empty" demoHis
 example : (acceptances demoCron demoIn demoHistory).map (fun a => a.accepted.map (·.name)) = [["n1"], []] := by decide
 example : alreadyDisrupting (finalWorld demoCron demoIn demoHistory).nodes "a" = 3 := by decide
 example : PoolWithin demoHitOf demoIn demoPool "Empty" := by unfold PoolWithin; decide
+
+-- informer lag on the demo world: n1 was accepted, the queue deleted its NodeClaim, the cluster state has not seen
+-- the deletionTimestamp yet (no `sync`): the observer and the cluster state both count n1, the mapping for "Empty"
+-- is used up (⌈30% of 7⌉ = 3 = n1 + n3 + n4), and a history that satisfies the preconditions exists
+def lagSteps : List QStep := [.appear "n1", .start ["n1"], .finish ["n1"] true]
+example : qrunOK completeUnmarksSucceeded [] lagSteps = true := by decide
+example : (lagSteps.foldl qstepCode []).map (fun t => (t.mark, t.seen, t.api, t.inFlight)) = [(true, false, true, false)] := by decide
+example : ({ demoIn with nodes := demoNodes.map (Node.withTrack Track.stateMarked (lagSteps.foldl qstepCode [])) } : World).mapping demoCron "Empty" "a" = 0 ∧
+    alreadyDisrupting (demoNodes.map (Node.withTrack Track.beingDeleted (lagSteps.foldl qstepCode []))) "a" = 3 := by decide
+-- … and once the informer has caught up nothing changes for the budget
+example : ((lagSteps ++ [QStep.sync ["n1"]]).foldl qstepCode []).map (fun t => (t.stateMarked, t.beingDeleted)) = [(true, true)] := by decide
 
 end Karp.C05
